@@ -1310,7 +1310,13 @@ func (w *world) scripted(prop string, sc int, rng *mrand.Rand) {
 		_ = names
 		// heal: a complete login from the resulting jar
 		if obs != nil {
-			res := w.fullLogin("/heal", w.randomTokOpts(rng, true), "rt-h", rng)
+			var res loginResult
+			if ir := w.lastInit[w.b]; obs["class"] == "redirectAuth" && ir != nil && sc%4 < 2 {
+				// the browser follows the very redirect it was just given: the login that response started completes
+				res = w.callback(ir.state, w.authorize(ir), w.randomTokOpts(rng, true), "rt-h", reqSpec{xfProto: rs.xfProto, xfHost: rs.xfHost, tls: rs.tls, hdrs: rs.hdrs, note: "heal: callback of the login the damaged request was redirected to"}, rng) // (same origin as the initiation: the provider checks redirect_uri)
+			} else {
+				res = w.fullLogin("/heal", w.randomTokOpts(rng, true), "rt-h", rng)
+			}
 			if res.obs != nil && res.obs["class"] != "forward" && res.obs["class"] != "passthrough" { // (a still valid session is simply served)
 				T.stat("handler.heal-attempts")
 				if !res.ok {
